@@ -298,7 +298,30 @@ def o_output_independent(case):
     return None
 
 
-ORACLES = {'layout': o_layout, 'empty': o_empty, 'dtype': o_dtype, 'output': o_output_independent,
+def o_long(case):
+    """R5 (size boundaries): one demodulate call on MANY samples (counts around and beyond 2^k / M block
+    sizes, never a multiple) must still give the nearest symbol for every sample, incl. the last ones"""
+    m = make_mod(case['kind'], case['M'], case.get('phase', 0.0))
+    sym = np.asarray(m.symbols, dtype=complex)
+    rs = np.random.RandomState(case['seed'])
+    n = case['n']
+    idx = rs.randint(0, sym.size, n)
+    # samples well inside the decision regions: the sent point plus a small perturbation
+    dmin = case['dmin']
+    z = sym[idx] + (rs.uniform(-1, 1, n) + 1j * rs.uniform(-1, 1, n)) * 0.2 * dmin
+    got = np.asarray(m.demodulate(z))
+    if got.shape != (n,):
+        return 'long:shape:' + case['kind'], str(got.shape)
+    bad = np.nonzero(got != idx)[0]
+    if bad.size:
+        return 'long:not-nearest:' + case['kind'], '%d of %d decisions wrong, first at flat position %d' % (bad.size, n, bad[0])
+    back = np.asarray(m.demodulate(m.modulate(idx)))
+    if not np.array_equal(back, idx):
+        return 'long:roundtrip:' + case['kind'], 'round trip of %d indexes' % n
+    return None
+
+
+ORACLES = {'long': o_long, 'layout': o_layout, 'empty': o_empty, 'dtype': o_dtype, 'output': o_output_independent,
            'history': o_history, 'demodulate': o_nearest, 'roundtrip': o_roundtrip, 'constellation': o_constellation,
            'constructor': o_reject, 'modulate.oob': o_oob}
 
@@ -482,6 +505,17 @@ def oracles(ctx, psk_max, qam_max, nsamp, reject_max):
         if kind != 'BPSK':
             run_oracle(ctx, 'modulate.oob', {'kind': kind, 'M': M, 'idx': [0, M]}, key=('oob', kind, M))
             run_oracle(ctx, 'modulate.oob', {'kind': kind, 'M': M, 'idx': [M + 5]}, key=('oob2', kind, M))
+    # long inputs: counts just beyond 2^k // M for k = 16..22 (whatever block size an implementation may use)
+    for kind, M, dmin in (('PSK', 1024, 2 * np.sin(np.pi / 1024)), ('QAM', 1024, 2 / np.sqrt(2 * 1023 / 3.0)),
+                          ('QAM', 256, 2 / np.sqrt(2 * 255 / 3.0)), ('PSK', 64, 2 * np.sin(np.pi / 64)),
+                          ('QAM', 4096, 2 / np.sqrt(2 * 4095 / 3.0))):
+        ks = (20, 22) if ctx.tier == 'quick' else (16, 18, 20, 21, 22)
+        for k in ks:
+            n = (1 << k) // M + ctx.rng.randint(1, 97)
+            if n * M > (1 << 24) and ctx.tier == 'quick':
+                continue
+            run_oracle(ctx, 'long', {'kind': kind, 'M': M, 'n': n, 'dmin': float(dmin), 'seed': ctx.rng.below(1 << 30)},
+                       key=('long', kind, M, k))
     import warnings
     with warnings.catch_warnings():
         warnings.simplefilter('ignore')
